@@ -611,8 +611,90 @@ def r195(ctx, repo):
            node=lb[0] if lb else h5, label="local basins only hdf5")
 
 
+def r196(ctx, repo):
+    """Per-instance state and a single chunk store.
+
+    (a) every attribute of the file object that methods mutate or re-bind
+        (chunk cache, length, etag, position) is created per instance in
+        __init__ – a class-level mutable default is shared by every open
+        resource;
+    (b) the chunk cache `self.cache` is the only place that holds downloaded
+        bytes: no memoising decorator on the download / chunk routines of
+        HTTPFile and its subclasses (a memo keeps every chunk ever downloaded
+        alive although the cache evicts them)."""
+    cls = repo.cls(HU, "HTTPFile")
+    init = repo.func(HU, "HTTPFile.__init__")
+    inited = {t.attr for n in walk(init) if isinstance(n, ast.Assign)
+              for t in n.targets if is_self_attr(t)}
+    # attributes written / mutated through self in the other methods
+    touched = {}
+    inplace = set()
+    for f in [x for x in cls.body if isinstance(x, ast.FunctionDef)
+              and x.name != "__init__"]:
+        for n in walk(f):
+            if isinstance(n, (ast.Assign, ast.AugAssign)):
+                tg = n.targets if isinstance(n, ast.Assign) else [n.target]
+                for t in tg:
+                    if is_self_attr(t):
+                        touched.setdefault(t.attr, n)
+                    if isinstance(t, ast.Subscript) and is_self_attr(t.value):
+                        touched.setdefault(t.value.attr, n)
+                        inplace.add(t.value.attr)
+            if isinstance(n, ast.Call) and isinstance(
+                    n.func, ast.Attribute) and is_self_attr(
+                    n.func.value) and n.func.attr in (
+                    "pop", "clear", "update", "append", "setdefault",
+                    "popitem"):
+                touched.setdefault(n.func.value.attr, n)
+                inplace.add(n.func.value.attr)
+    class_level = {}
+    for st in cls.body:
+        if isinstance(st, ast.Assign):
+            for t in st.targets:
+                if isinstance(t, ast.Name):
+                    class_level[t.id] = st.value
+    for attr, node in sorted(touched.items()):
+        shared = attr in class_level and isinstance(
+            class_level[attr], (ast.Dict, ast.List, ast.Set, ast.Call,
+                                ast.ListComp, ast.DictComp))
+        # an immutable class-level default that methods only re-bind is
+        # per-instance in effect
+        benign_default = (attr in class_level and isinstance(
+            class_level[attr], ast.Constant) and attr not in inplace)
+        ok = attr in inited or benign_default
+        ctx.ob("R19.6", ok,
+               f"state `{attr}` is created per instance in __init__" if ok
+               else f"state `{attr}` is not created in __init__"
+               + (" but is a class-level mutable object: every open "
+                  "resource shares it (chunks of one file are served for "
+                  "another)" if shared else
+                  ": it is shared through the class / missing"),
+               node=node, key=f"{HU}::HTTPFile::per-instance {attr}")
+    # (b) no memoising decorator on the byte-moving routines
+    MEMO = ("lru_cache", "cache", "cached_property", "Cache", "memoize")
+    for rel, cname in ((HU, "HTTPFile"), (S3, "S3File")):
+        c = repo.cls(rel, cname)
+        for f in [x for x in c.body if isinstance(x, ast.FunctionDef)]:
+            if f.name not in ("download_range", "get_cache_chunk",
+                              "read_range_cached", "read"):
+                continue
+            bad = [txt(d) for d in f.decorator_list
+                   if any(m in txt(d) for m in MEMO)]
+            ctx.ob("R19.6", not bad,
+                   f"{cname}.{f.name} is not memoised (the chunk cache is "
+                   f"the only store)" if not bad else
+                   f"{cname}.{f.name} is wrapped by `{bad[0]}`: the memo "
+                   f"keeps every downloaded chunk alive although the chunk "
+                   f"cache evicts them – the configured memory bound is "
+                   f"broken", node=f,
+                   key=f"{rel}::{cname}.{f.name}::not memoised")
+
+
 def run(ctx):
     repo = ctx.repo
+    ctx.rule("R19.6", "per-instance state; the chunk cache is the only "
+             "store of downloaded bytes", minimum=8)
+    r196(ctx, repo)
     ctx.rule("R19.1", "range arithmetic of chunks, Range header (both "
              "siblings) and the chunk loop as affine forms", minimum=13)
     ctx.rule("R19.2", "eviction cannot remove the chunk being returned; "
@@ -630,6 +712,18 @@ def run(ctx):
 
 
 MUTANTS = [
+    ("chunk cache as class attribute (seeded C19_5)", HU,
+     [("        self.cache = {}\n", ""),
+      ("class HTTPFile(io.IOBase):\n",
+       "class HTTPFile(io.IOBase):\n    cache = {}\n")], "R19.6"),
+    ("s3 download memoised (seeded C19_6)", S3,
+     ("    def download_range(self, start, stop):\n"
+      "        \"\"\"Download bytes given by the range (`start`, `stop`)\n\n"
+      "        `stop` is not inclusive (In the HTTP range request it normally "
+      "is).\n        \"\"\"\n        stream = self.s3_object",
+      "    @functools.lru_cache(maxsize=None)\n"
+      "    def download_range(self, start, stop):\n"
+      "        stream = self.s3_object"), "R19.6"),
     ("s3: empty-range short-cut off by one (seeded C19_3)", S3,
      ('        stream = self.s3_object.get(',
       '        last = stop - 1\n        if last <= start:\n'
@@ -720,6 +814,12 @@ MUTANTS = [
 ]
 
 TWINS = [
+    ("immutable defaults declared at class level", HU,
+     [("        self._len = None\n        self._etag = None\n"
+       "        self._pos = 0\n", ""),
+      ("class HTTPFile(io.IOBase):\n",
+       "class HTTPFile(io.IOBase):\n    _len = None\n    _etag = None\n"
+       "    _pos = 0\n")]),
     ("s3: correct empty-range short-cut", S3,
      ('        stream = self.s3_object.get(',
       '        last = stop - 1\n        if last < start:\n'
